@@ -38,6 +38,12 @@ var c09SiteKey = map[string]string{
 	"AuthnIssuerNil":  "C09:authnrequest:without-issuer:panic",
 	"EncCertIndex":    "C09:keydescriptor:encryption-without-certificate:panic",
 	"AnyCertIndex":    "C09:keydescriptor:unlabelled-without-certificate:panic",
+	// validateSignature and what it calls; the element whose signature is looked at is not part of
+	// the key: the site is the same for Response, Assertion, ArtifactResponse and LogoutResponse
+	"FpCertElNil":      "C09:signature:fingerprint-trust:keyinfo-without-certificate-element:panic",
+	"FpCertChildIndex": "C09:signature:fingerprint-trust:empty-certificate-element:panic",
+	"FpCertChildType":  "C09:signature:fingerprint-trust:certificate-element-without-text:panic",
+	"StripKeyInfoNil":  "C09:signature:without-keyinfo:panic",
 }
 
 // the function in which each site lives: a panic elsewhere is a different defect and gets its own key
@@ -47,10 +53,16 @@ var c09SiteFunc = map[string]string{
 	"RespIssuerNil": "parseResponse", "ArtIssuerNil": "parseArtifactResponse",
 	"LogoutRootNil": "ValidateLogoutResponse", "LogoutIssuerNil": "validateLogoutResponse",
 	"AuthnIssuerNil": ".Validate", "EncCertIndex": "getSPEncryptionCert", "AnyCertIndex": "getSPEncryptionCert",
+	"FpCertElNil": "getCertBasedOnFingerprint", "FpCertChildIndex": "getCertBasedOnFingerprint",
+	"FpCertChildType": "getCertBasedOnFingerprint", "StripKeyInfoNil": "validateSignature",
 }
 
 func c09PanicKey(v *c09Vec, o *c09Obs) string {
 	if o.Fatal {
+		// the plain chain keeps the key it had; every other shape is a case of its own
+		if v.In.Shape != "" && v.In.Shape != "chain" {
+			return "C09:" + c09Group(v) + ":deep-nesting:" + v.In.Shape + ":stack-exhaustion"
+		}
 		return "C09:" + c09Group(v) + ":deep-nesting:stack-exhaustion"
 	}
 	// walking outwards from where it panicked: the first function that holds a dereference
@@ -181,10 +193,10 @@ func TestC09(t *testing.T) {
 
 	var par, serial, deep []*c09Vec
 	for _, v := range vs {
-		switch v.In.Framing {
-		case "bomb", "bombvalid":
+		switch {
+		case v.In.Framing == "bomb" || v.In.Framing == "bombvalid":
 			serial = append(serial, v)
-		case "deep":
+		case v.In.Framing == "deep" || v.In.Depth == "huge":
 			deep = append(deep, v)
 		default:
 			par = append(par, v)
@@ -242,7 +254,7 @@ func TestC09(t *testing.T) {
 	// deeply nested documents can exhaust the goroutine stack, which no recover() survives:
 	// they run in a child process
 	var dmu sync.Mutex
-	sem := make(chan struct{}, 4)
+	sem := make(chan struct{}, 6)
 	var dwg sync.WaitGroup
 	for _, v := range deep {
 		v := v
@@ -263,7 +275,7 @@ func TestC09(t *testing.T) {
 	}
 	dwg.Wait()
 
-	for _, fam := range []string{"assn", "resp", "art", "resolver", "frame", "logout", "authn", "spmd", "idpmd"} {
+	for _, fam := range []string{"assn", "resp", "art", "resolver", "frame", "logout", "authn", "spmd", "idpmd", "trust", "nest"} {
 		if st.okByFam[fam] == 0 {
 			rep.Break("vacuous: no document of family %q was accepted by the real code - the harness does not build valid messages", fam)
 		}
@@ -409,13 +421,13 @@ func init() {
 		defer restore()
 		v := &r.Vector
 		var obs []c09Obs
-		switch v.In.Framing {
-		case "deep":
+		switch {
+		case v.In.Framing == "deep" || v.In.Depth == "huge":
 			var err error
 			if obs, err = c09Child(v); err != nil {
 				t.Fatal(err)
 			}
-		case "bomb", "bombvalid":
+		case v.In.Framing == "bomb" || v.In.Framing == "bombvalid":
 			c09Measure = true
 			obs = ctx.run(v, newRand(c09CaseKey(v)))
 			c09Measure = false
